@@ -44,7 +44,7 @@ Definition reserved_label_re (dollar : bool) (s : str) : bool :=
   end.
 
 Definition is_valid_legacy_labelname (s : str) : bool :=
-  label_name_re s && negb (reserved_label_re false s).
+  label_name_re s && negb (reserved_label_re true s).
 Definition is_valid_legacy_labelname_orig (s : str) : bool :=
   label_name_re_orig s && negb (reserved_label_re true s).
 
@@ -55,6 +55,6 @@ Definition validate_metric_name_utf8 (s : str) : res unit :=
 Definition validate_metric_name_legacy (s : str) : res unit :=
   match s with [] => Err ValueError | _ => if is_valid_legacy_metric_name s then Ok tt else Err ValueError end.
 Definition validate_labelname_utf8 (s : str) : res unit :=
-  if reserved_label_re false s then Err ValueError else Ok tt.
+  if reserved_label_re true s then Err ValueError else Ok tt.
 Definition validate_labelname_legacy (s : str) : res unit :=
-  if label_name_re s then (if reserved_label_re false s then Err ValueError else Ok tt) else Err ValueError.
+  if label_name_re s then (if reserved_label_re true s then Err ValueError else Ok tt) else Err ValueError.
